@@ -77,6 +77,25 @@ def damaged(rng, dialect, n):
     out = []
     for _ in range(n):
         stmts, m = g.document()
+        qs = [(si, ti) for si, st in enumerate(stmts) for ti, tk in enumerate(st)
+              if len(tk) >= 2 and tk[0] in "\"'" and tk[-1] == tk[0]]
+        if qs and rng.random() < 0.2:
+            # a quoted string loses one of its quote characters; the text may then end in a quoted string of the
+            # other kind, directly at the end of the text (the unterminated string runs up to a quote character
+            # that is not its own)
+            stmts = [list(st) for st in stmts]
+            si, ti = rng.choice(qs)
+            tk = stmts[si][ti]
+            stmts[si][ti] = tk[:-1] if rng.random() < 0.7 else tk[1:]
+            text = g.render(stmts)
+            k = rng.random()
+            if k < 0.6:
+                other = "'" if tk[0] == '"' else '"'
+                text = text.rstrip() + rng.choice(["\n", " ", "\r\n"]) + "Zq = " + other + rng.choice(["third", "", "a b"]) + other
+            elif k < 0.8:
+                text = text.rstrip()
+            out.append((text, stmts, "unquote"))
+            continue
         for _ in range(rng.choice([1, 1, 1, 2, 3])):
             stmts, kind = gen.damage(rng, stmts)
         out.append((g.render(stmts), stmts, kind))
